@@ -85,10 +85,17 @@ struct Local {
     nontrivial: u64,
     writes: u64,
     classes: [u64; 12],
+    /// smallest failing size already reported per key by this work unit (avoids the global lock)
+    reported: Vec<(String, (usize, usize))>,
 }
+
+/// Smallest counterexample per key (work units run longest-first for load balance, so the first
+/// failure seen is not the smallest): ordered by (length, number of chunks).
+type Best = std::sync::Mutex<std::collections::BTreeMap<String, (usize, usize, String, Value)>>;
 
 struct Ctx<'a> {
     r: &'a Report,
+    best: &'a Best,
     classes: &'a [AtomicU64; 12], // 768 bits: (fill 0..15, len%16, min(len/16,2))
 }
 
@@ -155,14 +162,32 @@ fn check(ctx: &Ctx, part: Part, path: Path, pat: &str, seed: u64, data: &[u8], c
         (Part::Cdc, Path::Enum) => run_hasher(PartitionerName::CDC.build_hasher(), data, chunks, refs, empties),
     });
     let case = || json!({"leg":"hasher","partitioner":part.name(),"path":format!("{path:?}"),"pattern":pat,"pattern_seed":seed as i64,"data_hex":vcore::hex(data),"chunks":chunks,"empty_writes_interleaved":empties});
-    match res {
-        Ok(Ok(())) => {}
-        Ok(Err((kind, what))) => ctx.r.violation(
-            &format!("hasher:{}:{kind}", part.name()),
-            &format!("{} hasher ({path:?}) fed {} bytes of pattern {pat} as chunks {:?}{}: {what}", part.name(), data.len(), chunks, if empties { " with empty writes interleaved" } else { "" }),
-            case(),
+    let (key, what) = match res {
+        Ok(Ok(())) => return,
+        Ok(Err((kind, what))) => (
+            format!("hasher:{}:{kind}", part.name()),
+            format!("{} hasher ({path:?}) fed {} bytes of pattern {pat} as chunks {:?}{}: {what}", part.name(), data.len(), chunks, if empties { " with empty writes interleaved" } else { "" }),
         ),
-        Err(p) => ctx.r.violation(&format!("hasher:{}:panic", part.name()), &format!("{} hasher ({path:?}) panicked on {} bytes of pattern {pat} as chunks {:?}: {p}", part.name(), data.len(), chunks), case()),
+        Err(p) => (format!("hasher:{}:panic", part.name()), format!("{} hasher ({path:?}) panicked on {} bytes of pattern {pat} as chunks {:?}: {p}", part.name(), data.len(), chunks)),
+    };
+    let size = (data.len(), chunks.len());
+    match local.reported.iter_mut().find(|(k, _)| *k == key) {
+        Some((_, best)) if *best <= size => return,
+        Some((_, best)) => *best = size,
+        None => local.reported.push((key.clone(), size)),
+    }
+    let mut g = ctx.best.lock().unwrap();
+    match g.get(&key) {
+        Some((l, n, _, _)) if (*l, *n) <= size => {}
+        _ => {
+            g.insert(key, (size.0, size.1, what, case()));
+        }
+    }
+}
+
+fn report_best(r: &Report, best: &Best) {
+    for (key, (_, _, what, case)) in best.lock().unwrap().iter() {
+        r.violation(key, what, case.clone());
     }
 }
 
@@ -285,11 +310,13 @@ fn replay(r: &Report, case: &Value) {
     }
     let refs: Vec<i64> = (0..=data.len()).map(|n| part.reference(&data[..n])).collect();
     let classes: [AtomicU64; 12] = Default::default();
-    let ctx = Ctx { r, classes: &classes };
+    let best: Best = Default::default();
+    let ctx = Ctx { r, classes: &classes, best: &best };
     let mut local = Local::default();
     println!("replay: {} hasher via {path:?}, {} bytes, chunks {:?}; reference token {}", part.name(), data.len(), chunks, refs[data.len()]);
     check(&ctx, part, path, case["pattern"].as_str().unwrap_or("?"), 0, &data, &chunks, &refs, case["empty_writes_interleaved"].as_bool().unwrap_or(false), &mut local);
     flush(&ctx, local);
+    report_best(r, &best);
 }
 
 fn main() {
@@ -330,7 +357,8 @@ fn main() {
         })
         .collect();
     let classes: [AtomicU64; 12] = Default::default();
-    let ctx = Ctx { r: &r, classes: &classes };
+    let best: Best = Default::default();
+    let ctx = Ctx { r: &r, classes: &classes, best: &best };
 
     // vacuity evidence about the inputs themselves
     let mut distinct_tokens = BTreeSet::new();
@@ -380,7 +408,7 @@ fn main() {
         })
         .collect();
     let cdc_classes: [AtomicU64; 12] = Default::default();
-    let cdc_ctx = Ctx { r: &r, classes: &cdc_classes };
+    let cdc_ctx = Ctx { r: &r, classes: &cdc_classes, best: &best };
     let mut cdc_units: Vec<(usize, usize)> = Vec::new();
     let mut cdc_lengths: BTreeSet<usize> = (0..=cdc_all_max).collect();
     cdc_lengths.extend([24, 32, 33]);
@@ -406,6 +434,7 @@ fn main() {
     r.counters.add("cdc_chunkings", r.evaluations.load(Ordering::Relaxed) - before);
     r.counters.add("murmur3_chunkings", before);
 
+    report_best(&r, &best);
     r.set_rule(&format!(
         "E-ENUM. Murmur3: {} byte patterns (0x00.., 0xFF.., 0x80.., ascending from 0x7E, alternating 0x7F/0x80, seeded fills) x lengths 0..=70 u {{79,80,81,95,96,97,127,128,129,255,256,257}}; every composition of L for L<={all_max} (also with empty writes interleaved for L<=10), every 3-chunk split with empty chunks allowed{} plus uniform chunk streams / 16k+d cut sets / single-byte cuts around each 16-byte boundary for larger L; both the concrete hasher and the PartitionerName enum dispatch; finish() compared with the one-shot reference after EVERY prefix. CDC: 9 patterns (incl. first 8 bytes = i64::MIN / i64::MAX) x lengths 0..={cdc_all_max} u {{24,32,33}}, every composition. distinct_nontrivial = chunkings with >=2 chunks in which some write starts at a non-zero buffer fill and completes a 16-byte block (CDC: starts inside the 8-byte buffer and runs past its end).",
         streams.len(),
